@@ -67,7 +67,8 @@ type material struct {
 	fillerPEM    [][]byte
 	sizedRoots   map[string][]*x509.Certificate // sized CA file name -> every certificate the file holds
 	sizedSeq     int
-	sizedMissing bool // a sized file was asked for although it had not been built: a fault of the harness's plumbing
+	foreign      map[string][]byte // PEM blocks that are no CERTIFICATE, by kind (CA files with foreign blocks)
+	sizedMissing bool              // a sized file was asked for although it had not been built: a fault of the harness's plumbing
 }
 
 // path maps a slot content name to a file path; kind is crt | key | ca.
